@@ -1715,6 +1715,7 @@ class Circuit(Unitary, StateVectorMap, Collection[Operation]):
 
             ValueError: If `point.qudit` is not in `op.location`
         """
+        self.check_valid_operation(op)
         point = self.normalize_point(point)
 
         if len(self[point].location.intersection(op.location)) == 0:
